@@ -120,7 +120,7 @@ Print Assumptions C05_unpause_then_pause_in_one_block_refuted.
 Theorem C05_activate_then_pause_in_one_block_refuted : ~ C05_statement_for [OActivate 1; OPause 1; OEndBlock].
 Proof. exact activate_then_pause_refuted. Qed.
 Print Assumptions C05_activate_then_pause_in_one_block_refuted.
-Theorem C05_shared_consensus_key_refuted : ~ C05_statement_for [OClaim 3 1 true; OEndBlock; ONewBlock 5; OPause 1; OEndBlock].
+Theorem C05_shared_consensus_key_refuted : ~ C05_statement_for [OClaim 3 1 true; OEndBlock; ONewBlock (5 * NS); OPause 1; OEndBlock].
 Proof. exact shared_key_refuted. Qed.
 Print Assumptions C05_shared_consensus_key_refuted.
 Theorem C05_same_key_claimed_twice_refuted : ~ C05_statement_for [OClaim 3 3 true; OClaim 4 3 true; OEndBlock].
